@@ -23,6 +23,10 @@ THEOREMS = [
     "Pedal.SandboxIO.runEvents_buf",
     "Pedal.SandboxIO.runEvents_popped",
     "Pedal.SandboxIO.inv_step",
+    # obligations on the generated file (what the translator read / measured)
+    "Pedal.SandboxIO.guard_sem",
+    "Pedal.SandboxIO.pop_front",
+    "Pedal.SandboxIO.default_known",
 ]
 NOTES = [
     "a student execution is abstracted to its trace of stdout writes and input() calls; that print(*a, sep, end) "
@@ -30,8 +34,12 @@ NOTES = [
     "sampled by the correspondence (print / sys.stdout.write / input(prompt) / input() through run, call and evaluate)",
     "str.isspace is compared with the model's isPySpace over EVERY code point on every run; rstrip/split('\\n') on "
     "seeded strings over all 29 whitespace code points and non-whitespace look-alikes",
-    "the guard of append_output, the popped end of the queue and the default input are translated from the source; "
-    "the control flow of _input_tracker / set_input / append_output is hand-modelled",
+    "the condition under which append_output touches the line view (a boolean expression over: own text non-empty, "
+    "raw output before / after non-empty), the popped end of the queue and the default input are read from the source "
+    "(path-wise symbolic reading: early returns, negations, flags in locals, private helpers inlined, the installed "
+    "input() located through mock_function) AND measured on a fresh sandbox through the public API; the two must agree "
+    "(a contradiction or a fact established neither way is `unknown` and fails guard_sem / pop_front / default_known); "
+    "the control flow of the mocked input() / set_input / append_output around these facts is hand-modelled",
     "set_input/queue_input/run(inputs=) with a non-None value while a callable is installed raise AttributeError in "
     "the code; modelled (operation raises, state unchanged) and compared, but outside the oracle's domain",
     "not modelled: MAXIMUM_INPUTS (100000 reads), output written by the abandoned thread of a timed-out execution "
